@@ -166,7 +166,9 @@ PROPS = {
             'unit uper, COMPOSITIONAL: the trait WritableType carries a spec function x_enc (the X.691 encoding of a value outside a SEQUENCE scope) and the contract `scope is None && Ok && x_ok(v) ==> appended bits == x_enc(v)`; '
             'the real descriptor impls Boolean, NullT, Integer, OctetString, Enumerated, Option<T>, DefaultValue<T, C>, SequenceOf<T, C> (length part ++ concatenation of the element encodings, loop invariant over the real for loop) are verified against it, '
             'so the encoding of every type built from these descriptors by arbitrary nesting is proved bit-exact (below the 16K fragmentation threshold of the known findings). Sequence<C>, Choice<C>, Utf8String have x_ok == false (not described compositionally)',
-            'NOT PROVED, bounded stand-in only: the type-level rules of CHOICE and the character strings at the API level, and the constants emitted by walker.rs (MIN/MAX/EXTENSIBLE/STD_OPTIONAL_FIELDS/...)',
+            'write_choice (X.691 23): index, then a root alternative in place or an extension alternative as open type (general length + the alternative padded with 0 to whole octets, lemma_fresh_is_bits), '
+            'given the ASSUMED contract of the generated write_content (it emits c_enc of the selected alternative)',
+            'NOT PROVED, bounded stand-in only: the character strings at the API level and the constants emitted by walker.rs (MIN/MAX/EXTENSIBLE/STD_OPTIONAL_FIELDS/...)',
         ],
         'trusted_base': COMMON_TRUSTED + PER_TRUSTED + KANI_TRUSTED,
         'not_under_contract': UPER_NOT + ['constraint constants emitted by walker.rs'],
